@@ -13,9 +13,7 @@ EXTENDS ParallelRunner, TLC, Json, IOUtils
 VARIABLES c, rank
 
 Small   == 0 .. 5
-Small4  == 0 .. 4
 SmallW  == 1 .. 5
-Small4W == {1, 2, 4}
 BigN    == 0 .. 64
 BigW    == 1 .. 16
 Order == [k \in 1 .. Len(arrived) |-> arrived[k][1]]
